@@ -1195,6 +1195,8 @@ impl World {
         }
 
         self.bump.reset();
+        #[cfg(evenio_verif)]
+        crate::verif::BUMP_RESETS.fetch_add(1, core::sync::atomic::Ordering::Relaxed);
         debug_assert!(self.event_queue.is_empty());
     }
 
@@ -1214,6 +1216,22 @@ impl World {
             world: NonNull::from(self),
             _marker: PhantomData,
         }
+    }
+}
+
+// Verification hooks. Compiled only with `--cfg evenio_verif`.
+#[cfg(evenio_verif)]
+impl World {
+    pub(crate) fn verif_parts(&self) -> (&Entities, &ReservedEntities, usize) {
+        (
+            &self.entities,
+            &self.reserved_entities,
+            self.event_queue.len(),
+        )
+    }
+
+    pub(crate) fn verif_parts_mut(&mut self) -> (&mut Entities, &mut Archetypes) {
+        (&mut self.entities, &mut self.archetypes)
     }
 }
 
